@@ -24,17 +24,17 @@ Proof. reflexivity. Qed.
 
 (* SyncTimestamp: saveMu held over load and save; memory set with force afterwards  [model: LSyncLoad / LSyncSave / LSyncSet] *)
 Lemma skel_SyncTimestamp_ok : skel_SyncTimestamp =
-  [Lock "t.saveMu"; Call "loadTimestamp"; IfE "err != nil" [Unlock "t.saveMu"; Ret] []; Call "saveTimestamp"; Unlock "t.saveMu"; IfE "err != nil" [Ret] []; Call "setTSOPhysical(next, true)"; Ret].
+  [Lock "t.saveMu"; Call "loadTimestamp"; IfE "err != nil" [Unlock "t.saveMu"; Ret] []; Assign "next" ":= time.Now()"; DeferE [Assign "next" "= next.Add(time.Hour)"]; DeferE [Assign "next" "= next.Add(-time.Hour)"]; IfE "typeutil.SubRealTimeByWallClock(next, last) < UpdateTimestampGuard" [Assign "next" "= last.Add(UpdateTimestampGuard)"] []; Assign "save" ":= next.Add(t.saveInterval)"; Call "saveTimestamp(leadership, save)"; Unlock "t.saveMu"; IfE "err != nil" [Ret] []; Call "setTSOPhysical(next, true)"; Ret].
 Proof. reflexivity. Qed.
 
 (* resetUserTimestamp: tsoMux held throughout; Check; smaller / equal-not-greater / too-far rejected; saveMu around decide+save; memory written last  [model: LURBegin / LURDecide / LURSave / LUREnd] *)
 Lemma skel_resetUserTimestamp_ok : skel_resetUserTimestamp =
-  [Lock "t.tsoMux"; DeferUnlock "t.tsoMux"; Call "Check"; IfE "!leadership.Check()" [Ret] []; IfE "physicalDifference < 0" [IfE "ignoreSmaller" [Ret] []; Ret] []; IfE "physicalDifference == 0 && logicalDifference <= 0" [IfE "ignoreSmaller" [Ret] []; Ret] []; IfE "physicalDifference >= t.maxResetTSGap().Milliseconds()" [Ret] []; Lock "t.saveMu"; Call "Load"; IfE "typeutil.SubRealTimeByWallClock(t.lastSavedTime.Load().(time.Time), nextPhysical) <= UpdateTimestampGuard" [Call "saveTimestamp"; IfE "err != nil" [Unlock "t.saveMu"; Ret] []] []; Unlock "t.saveMu"; Assign "t.tsoMux.physical" "= nextPhysical"; Assign "t.tsoMux.logical" "= int64(nextLogical)"; Ret].
+  [Lock "t.tsoMux"; DeferUnlock "t.tsoMux"; Call "Check"; IfE "!leadership.Check()" [Ret] []; IfE "physicalDifference < 0" [IfE "ignoreSmaller" [Ret] []; Ret] []; IfE "physicalDifference == 0 && logicalDifference <= 0" [IfE "ignoreSmaller" [Ret] []; Ret] []; IfE "physicalDifference >= t.maxResetTSGap().Milliseconds()" [Ret] []; Lock "t.saveMu"; Call "Load"; IfE "typeutil.SubRealTimeByWallClock(t.lastSavedTime.Load().(time.Time), nextPhysical) <= UpdateTimestampGuard" [Assign "save" ":= nextPhysical.Add(t.saveInterval)"; Call "saveTimestamp(leadership, save)"; IfE "err != nil" [Unlock "t.saveMu"; Ret] []] []; Unlock "t.saveMu"; Assign "t.tsoMux.physical" "= nextPhysical"; Assign "t.tsoMux.logical" "= int64(nextLogical)"; Ret].
 Proof. reflexivity. Qed.
 
 (* UpdateTimestamp: snapshot; zero memory -> return; next; saveMu around decide+save; setTSOPhysical without force  [model: LUpdRead / LUpdDecide / LUpdSave / LUpdSet] *)
 Lemma skel_UpdateTimestamp_ok : skel_UpdateTimestamp =
-  [Call "getTSO"; IfE "prevPhysical == typeutil.ZeroTime" [Ret] []; IfE "jetLag > UpdateTimestampGuard" [] [IfE "prevLogical > maxLogical/2" [] [Ret]]; Lock "t.saveMu"; Call "Load"; IfE "typeutil.SubRealTimeByWallClock(t.lastSavedTime.Load().(time.Time), next) <= UpdateTimestampGuard" [Call "saveTimestamp"; IfE "err != nil" [Unlock "t.saveMu"; Ret] []] []; Unlock "t.saveMu"; Call "setTSOPhysical(next, false)"; Ret].
+  [Call "getTSO"; IfE "prevPhysical == typeutil.ZeroTime" [Ret] []; IfE "jetLag > UpdateTimestampGuard" [Assign "next" "= now"] [IfE "prevLogical > maxLogical/2" [Assign "next" "= prevPhysical.Add(time.Millisecond)"] [Ret]]; Lock "t.saveMu"; Call "Load"; IfE "typeutil.SubRealTimeByWallClock(t.lastSavedTime.Load().(time.Time), next) <= UpdateTimestampGuard" [Assign "save" ":= next.Add(t.saveInterval)"; Call "saveTimestamp(leadership, save)"; IfE "err != nil" [Unlock "t.saveMu"; Ret] []] []; Unlock "t.saveMu"; Call "setTSOPhysical(next, false)"; Ret].
 Proof. reflexivity. Qed.
 
 (* getTS: retry loop; Check when memory is zero; generate; overflow -> retry; second Check before answering  [model: LGen / LRespond] *)
